@@ -294,7 +294,14 @@ where
         Ok(sol) => {
             let (t, y, t_events, y_events, dense_raw) = default_solout.into_payload();
             let continuous_sol = if options.dense_output {
-                Some(ContinuousOutput::from_segments(options.method, n_states, dense_raw))
+                let dense = ContinuousOutput::from_segments(options.method, n_states, dense_raw);
+                // A run that stopped before its first accepted step has no segment, but it still
+                // covers the initial point: sol(x0) returns y0 as in the zero-length run.
+                if dense.t_span().is_none() {
+                    Some(ContinuousOutput::constant(options.method, x0, y0))
+                } else {
+                    Some(dense)
+                }
             } else {
                 None
             };
